@@ -533,6 +533,7 @@ func entryPointCases(pr *pProbe, opts []participle.Option) {
 		}
 	}
 	mapperOrderCases(pr)
+	captureKindCases(func(format string, args ...interface{}) { pr.fail(format, args...) }, func() { pr.Tried++ })
 	tagMeaningCases(pr, opts)
 	// Trace changes nothing
 	long := strings.Repeat("x", 60)
@@ -782,4 +783,116 @@ func tagMeaningCases(pr *pProbe, opts []participle.Option) {
 		map[string][]string{"- a b - c ;": {"a", "b", "c"}, ";": {}, "- - a ;": nil})
 	tagMeaningOne(pr, opts, "grammar ( @Ident \",\" )+ \";\"", func(g *pbParenPlus) []string { return g.A },
 		map[string][]string{"a , b , ;": {"a", "b"}, ";": nil})
+}
+
+
+// ---- what a capture stores, by kind of field (C06: no panic; C17 / C01: the value) ----
+
+type ckCap struct {
+	V   string `@Ident`
+	Got []string
+}
+
+func (c *ckCap) Capture(v []string) error { c.Got = append(c.Got, v...); return nil }
+
+type ckTxt struct {
+	V   string `@Ident`
+	Got string
+}
+
+func (t *ckTxt) UnmarshalText(b []byte) error { t.Got += string(b); return nil }
+
+type (
+	ckSubCap struct {
+		X ckCap `@@`
+	}
+	ckSubCapSlice struct {
+		X []ckCap `@@*`
+	}
+	ckSubCapPtr struct {
+		X *ckCap `@@?`
+		Y string `@Int?`
+	}
+	ckSubTxt struct {
+		X ckTxt `@@`
+	}
+	ckTokCap struct {
+		X ckCap   `@Ident`
+		Y []ckCap `@Ident*`
+		Z *ckCap  `( "," @Ident )?`
+	}
+	ckTokTxt struct {
+		X ckTxt  `@Ident`
+		Y *ckTxt `@Ident?`
+	}
+)
+
+func ckRun[G any](fail func(string, ...interface{}), tried func(), desc, in string, check func(*G) string) {
+	tried()
+	defer func() {
+		if r := recover(); r != nil {
+			fail("%s: input %q: panic: %v", desc, in, r)
+		}
+	}()
+	p, err := participle.Build[G](participle.Lexer(probeLexer), participle.Elide("Whitespace", "Comment"))
+	if err != nil {
+		fail("%s: Build: %v", desc, err)
+		return
+	}
+	v, err := p.ParseString("", in)
+	if err != nil {
+		fail("%s: input %q: %v", desc, in, err)
+		return
+	}
+	if msg := check(v); msg != "" {
+		fail("%s: input %q: %s", desc, in, msg)
+	}
+}
+
+func captureKindCases(fail func(string, ...interface{}), tried func()) {
+	ckRun(fail, tried, "X ckCap `@@` (sub-production into a struct that also implements Capture)", "a", func(g *ckSubCap) string {
+		if g.X.V != "a" || len(g.X.Got) != 0 {
+			return fmt.Sprintf("X = %+v, want the parsed sub-production {V:a} and no Capture call", g.X)
+		}
+		return ""
+	})
+	ckRun(fail, tried, "X []ckCap `@@*`", "a b", func(g *ckSubCapSlice) string {
+		if len(g.X) != 2 || g.X[0].V != "a" || g.X[1].V != "b" {
+			return fmt.Sprintf("X = %+v, want [{V:a} {V:b}]", g.X)
+		}
+		return ""
+	})
+	ckRun(fail, tried, "X *ckCap `@@?`", "a 1", func(g *ckSubCapPtr) string {
+		if g.X == nil || g.X.V != "a" || g.Y != "1" {
+			return fmt.Sprintf("X = %+v Y = %q, want {V:a} and 1", g.X, g.Y)
+		}
+		return ""
+	})
+	ckRun(fail, tried, "X ckTxt `@@` (sub-production into a struct that also implements TextUnmarshaler)", "a", func(g *ckSubTxt) string {
+		if g.X.V != "a" || g.X.Got != "" {
+			return fmt.Sprintf("X = %+v, want the parsed sub-production {V:a} and no UnmarshalText call", g.X)
+		}
+		return ""
+	})
+	ckRun(fail, tried, "token captures into Capture implementers", "a b c , d", func(g *ckTokCap) string {
+		if fmt.Sprint(g.X.Got) != "[a]" || len(g.Y) != 2 || fmt.Sprint(g.Y[0].Got, g.Y[1].Got) != "[b] [c]" || g.Z == nil || fmt.Sprint(g.Z.Got) != "[d]" {
+			return fmt.Sprintf("X=%+v Y=%+v Z=%+v, want Capture([a]), [Capture([b]) Capture([c])], Capture([d])", g.X, g.Y, g.Z)
+		}
+		return ""
+	})
+	ckRun(fail, tried, "token captures into TextUnmarshaler implementers", "a b", func(g *ckTokTxt) string {
+		if g.X.Got != "a" || g.Y == nil || g.Y.Got != "b" {
+			return fmt.Sprintf("X=%+v Y=%+v, want UnmarshalText(a), UnmarshalText(b)", g.X, g.Y)
+		}
+		return ""
+	})
+}
+
+// TestVerif_C06C17_CaptureKinds: the same scenarios as a (tiny) bounded stand-in of setField's reflection paths.
+func TestVerif_C06C17_CaptureKinds(t *testing.T) {
+	res := &xResult{Check: "capture kinds", Property: "C06 C17", Exhaustive: true,
+		Bound: "6 grammars: @@ and token captures into fields whose type implements Capture or encoding.TextUnmarshaler (value, pointer, slice), one input each",
+		Rule: "scenarios; all are non-trivial"}
+	captureKindCases(func(format string, args ...interface{}) { res.violate(format, args...) }, func() { res.Evaluations++; res.Distinct++ })
+	res.emit(t)
 }
